@@ -330,13 +330,16 @@ func c19Check(a c19Agg, ms []int, rows []aggRow) []string {
 // which the store happens to return them (here: the id order) must not matter, and a defect that depends on
 // which row comes first (a loop that stops at the first odd value, say) needs the odd value first.
 func (w *c19Worker) Item(idx int, emit func(vf.Violation), st sweep.Stats, sample func(string)) {
-	w.item(idx, false, emit, st, sample)
+	w.item(idx, false, false, emit, st, sample)
 	if len(w.multisets[idx]) >= 2 {
-		w.item(idx, true, emit, st, sample)
+		w.item(idx, true, false, emit, st, sample)
 	}
+	// "for any traversal feeding aggregate()": the same rows arriving through a mark/jump construct (whose
+	// jump condition never holds, so every row passes once) bring the loop's signal travelers with them
+	w.item(idx, false, true, emit, st, sample)
 }
 
-func (w *c19Worker) item(idx int, reversed bool, emit func(vf.Violation), st sweep.Stats, sample func(string)) {
+func (w *c19Worker) item(idx int, reversed, viaLoop bool, emit func(vf.Violation), st sweep.Stats, sample func(string)) {
 	ms := w.multisets[idx]
 	if reversed {
 		ms = append([]int{}, ms...)
@@ -370,11 +373,21 @@ func (w *c19Worker) item(idx int, reversed bool, emit func(vf.Violation), st swe
 			names = append(names, w.aggs[i].Name)
 		}
 		q := gripql.V().Aggregate(aggs)
+		if viaLoop {
+			q = gripql.V()
+			q.Statements = append(q.Statements,
+				&gripql.GraphStatement{Statement: &gripql.GraphStatement_Mark{Mark: "a"}},
+				&gripql.GraphStatement{Statement: &gripql.GraphStatement_Jump{Jump: &gripql.Jump{Mark: "a", Expression: gripql.Eq("_label", "no-such-label"), Emit: true}}})
+			q = q.Aggregate(aggs)
+		}
 		res := qrun.Run(gi.Compiler(), q.Statements, 20*time.Second)
 		st["runs"]++
 		desc := fmt.Sprintf("V().aggregate(%s) over %s", strings.Join(names, ","), w.Describe(idx))
 		if reversed {
 			desc += " stored in reverse order"
+		}
+		if viaLoop {
+			desc = "V().mark(a).jump(a, never).aggregate(" + strings.Join(names, ",") + ") over " + w.Describe(idx)
 		}
 		if res.CompileErr != nil {
 			emit(vf.Violation{Sig: "rejected|" + strings.Join(names, "+"), Detail: desc + ": " + res.CompileErr.Error(), Replay: desc})
@@ -446,7 +459,7 @@ func C19(tier string, args []string) int {
 	run.Coverage["undecided_timeouts"] = res.Stats["undecided_timeouts"]
 	run.Coverage["worker_crashes"] = res.Crashes
 	run.Coverage["exhaustive"] = !res.DeadlineHit && res.Done >= w.N()
-	run.Coverage["rule"] = "every multiset up to the size bound over 10 field values, stored in both scan orders, x (10 aggregation instances alone + all 45 pairs in one step); non-trivial = run that returned at least one aggregation row"
+	run.Coverage["rule"] = "every multiset up to the size bound over 10 field values, stored in both scan orders and also fed through a mark/jump construct, x (10 aggregation instances alone + all 45 pairs in one step); non-trivial = run that returned at least one aggregation row"
 	s := res.Samples
 	if len(s) == 0 {
 		s = []string{"V().aggregate(term) over " + w.Describe(len(w.multisets)/2)}
